@@ -245,7 +245,16 @@ def assemble(unit_dir, repo, vacuity=False, variables=None, probe_insert=None):
                 ty, val = m.group(3).strip(), m.group(4).strip()
                 g.types.append({"file": a["file"], "item": "const " + a["name"], "sha": hashlib.sha256(m.group(0).encode()).hexdigest()[:16],
                                 "rules": [("R12", "const -> " + ("exec const with ensures" if a.get("ensures") else "pub const"))]})
-                if a.get("ensures"):
+                if a.get("dur_spec"):
+                    # the VALUE of a Duration constant is read off the source expression and becomes a spec function, so
+                    # that contracts can say "the crate default" without fixing its value
+                    mm = re.search(r"Duration::from_(secs|millis)\(\s*(\d[\d_]*)\s*\)\s*$", val)
+                    if not mm:
+                        raise ExtractError(f"unsupported construct: const {a['name']} is not a literal Duration::from_secs/from_millis")
+                    mult = "1_000_000_000" if mm.group(1) == "secs" else "1_000_000"
+                    emit(f"pub open spec fn {a['dur_spec']}() -> nat {{ {mm.group(2)} * {mult} }}")
+                    emit(f"pub exec const {a['name']}: {ty}\n    ensures {a['name']}.ns() == {a['dur_spec']}(),\n{{ {val} }}")
+                elif a.get("ensures"):
                     emit(f"pub exec const {a['name']}: {ty}\n    ensures {a['ensures']},\n{{ {val} }}")
                 else:
                     emit(f"pub const {a['name']}: {ty} = {val};")
